@@ -183,7 +183,7 @@ type StatusSpec struct {
 	Code    int32  `json:"code"`
 	Msg     RawStr `json:"msg,omitempty"`
 	Details int    `json:"details,omitempty"`
-	Plain   int    `json:"plain,omitempty"` // 0 status, 1 errors.New, 2 context.Canceled, 3 context.DeadlineExceeded, 4 io.EOF, 5 OK-coded non-nil error, 6 ctx.Err() of the handler's context
+	Plain   int    `json:"plain,omitempty"` // 0 status, 1 errors.New, 2 context.Canceled, 3 context.DeadlineExceeded, 4 io.EOF, 5 OK-coded non-nil error, 6 ctx.Err() of the handler's context, 7/8 a wrapped context.Canceled / DeadlineExceeded
 }
 
 type Fault struct {
@@ -439,6 +439,10 @@ func (s *StatusSpec) Err(ctx context.Context) error {
 			return ctx.Err()
 		}
 		return nil
+	case 7:
+		return fmt.Errorf("querying backend: %w", context.Canceled)
+	case 8:
+		return fmt.Errorf("querying backend: %w", context.DeadlineExceeded)
 	}
 	if s.Code == 0 {
 		return nil
